@@ -135,6 +135,23 @@ fn analyse(case: &ProgCase, challenges: &[Vec<Q>]) -> Outcome12 {
         }
         let expect: [(Option<Q>, Option<Q>); 7] =
             [(Some(one), Some(one)), (Some(p2_init), Some(one)), (Some(one), Some(one)), (None, None), (Some(one), Some(one)), (Some(one), Some(vt_final)), (Some(one), Some(one))];
+        // the stack overflow table's first and last values depend on the inputs / outputs deeper than 16:
+        // the AIR asserts them (stack/main.md); the assertion built from the public inputs is the specification
+        {
+            use winter_air::Air;
+            let air = airx::make_air(&trace, &stack_inputs(&case.stack));
+            let mut rand = winter_air::AuxTraceRandElements::<Q>::new();
+            rand.add_segment_elements(ch.to_vec());
+            for a in air.get_aux_assertions(&rand) {
+                if a.column() == 3 {
+                    a.apply(n, |step, value| {
+                        if aux.get(3, step) != value {
+                            out.bad_cols.entry(3).or_insert_with(|| if step == 0 { "initial value".to_string() } else { "terminal value".to_string() });
+                        }
+                    });
+                }
+            }
+        }
         for (c, (f, l)) in expect.iter().enumerate() {
             if let Some(f) = f {
                 if aux.get(c, 0) != *f {
